@@ -142,9 +142,7 @@ pub fn run(pid: &'static str, thorough: bool) -> i32 {
                     .filter_map(|h| {
                         let r = tables::finish_of(h);
                         // closure is demanded only when the inputs were closed (a forward reference may still be dangling)
-                        let n = r.types.len() as u32;
-                        let inputs_closed = r.types.iter().all(|t| vcommon::refs::ref_ids(&t.ty).iter().all(|i| *i < n));
-                        (if inputs_closed { vcommon::refs::well_formed(&r) } else { vcommon::refs::dense(&r) }).err().map(|e| vcommon::evidence::Violation { key: "builder-finish-not-well-formed".into(), msg: format!("{e} — builder history {h:?}"), case: json!({"kind": "builder", "ops": h}) })
+                        (if tables::inputs_closed(h) { vcommon::refs::well_formed(&r) } else { vcommon::refs::dense(&r) }).err().map(|e| vcommon::evidence::Violation { key: "builder-finish-not-well-formed".into(), msg: format!("{e} — builder history {h:?}"), case: json!({"kind": "builder", "ops": h}) })
                     })
                     .collect();
                 closed_checked += hs.len() as u64;
@@ -184,7 +182,7 @@ pub fn replay(pid: &str, body: &Value) -> i32 {
         Some("builder") | Some("interner") => {
             if pid == "C01" {
                 let h: Vec<u8> = case["ops"].as_array().unwrap().iter().map(|x| x.as_u64().unwrap() as u8).collect();
-                vcommon::refs::dense(&tables::finish_of(&h)).err().map(|e| ("builder-finish-not-well-formed".to_string(), e))
+                (if tables::inputs_closed(&h) { vcommon::refs::well_formed(&tables::finish_of(&h)) } else { vcommon::refs::dense(&tables::finish_of(&h)) }).err().map(|e| ("builder-finish-not-well-formed".to_string(), e))
             } else {
                 tables::replay_case(case)
             }
